@@ -45,7 +45,7 @@ PROPS = {
     ),
     "C20": dict(
         level="exploration",
-        rule="AVP trees (dense trees over 6 codes with repeats at several depths, groups in groups, empty groups, undefined codes; and trees drawn from every dictionary context), built through the API or obtained by decoding, are queried with FindAVP / FindAVPs / FindAVPsWithPath by int, uint32 and name, for codes present, absent, undefined, with wildcard / exact / wrong vendor; results are compared by pointer identity and order with a reference pre-order walk. distinct_nontrivial counts distinct (origin, query kind, query form, number of hits capped at 3, resolvable) and (path length, hits, resolvable) classes.",
+        rule="AVP trees (dense trees over 6 codes with repeats at several depths, groups in groups, empty groups, undefined codes; and trees drawn from every dictionary context), built through the API or obtained by decoding, are queried with FindAVP / FindAVPs / FindAVPsWithPath by int, uint32 and name, for codes present, absent, undefined, with wildcard / exact / wrong vendor, alternating between two generated dictionaries in which the same names mean different codes; results are compared by pointer identity and order with a reference pre-order walk. distinct_nontrivial counts distinct (origin, query kind, query form, number of hits capped at 3, resolvable) and (path length, hits, resolvable) classes.",
         runs=dict(quick=[plain("TestC20", 8)], thorough=[plain("TestC20", 16, 3000)]),
         floor=dict(quick=20000, thorough=1000000),
         need_events=["queries", "path_queries"],
@@ -69,7 +69,7 @@ PROPS = {
     ),
     "C05": dict(
         level="exploration",
-        rule="sequences of 1..8 numbered messages with body sizes from {0,12,100,1000,1004,1008,1024,1028,4076,4096,65000} (below/at/above the 1 KiB pooled buffer and the 4 KiB bufio buffer) are concatenated and delivered to ReadMessage over a plain fragmenting reader (byte-exact consumption counter), over bufio, and to a real connection (diam.NewConn over the in-memory transport; thorough: loopback TCP): every 1-cut and 2-cut and every truncation point for short streams, random cut sets incl. all-1-byte reads and random truncation for long ones, and every declared length 0..19 followed by more data. distinct_nontrivial counts distinct (stream shape, leading body sizes / message count / fragment count / declared length) classes.",
+        rule="sequences of 1..8 numbered messages with body sizes from {0,12,100,1000,1004,1008,1024,1028,4076,4096,65000} (below/at/above the 1 KiB pooled buffer and the 4 KiB bufio buffer) are concatenated and delivered to ReadMessage over a plain fragmenting reader (byte-exact consumption counter), over bufio, and to a real connection (diam.NewConn over the in-memory transport; thorough: loopback TCP): every 1-cut and 2-cut and every truncation point for short streams, random cut sets incl. all-1-byte reads and random truncation for long ones, every declared length 0..19 followed by more data, and one body above the 64 KiB growth step of the body reader (65 532 .. 200 000 bytes) placed first, in the middle or last among small messages. distinct_nontrivial counts distinct (stream shape, leading body sizes / message count / fragment count / declared length) classes.",
         runs=dict(quick=[plain("TestC05", 8), race("TestC05", 2, env={"VERIF_C05_RACE": 1})], thorough=[plain("TestC05", 16, 3000), race("TestC05", 4, 3000)]),
         floor=dict(quick=3000, thorough=100000),
         need_events=["streams_checked", "short_lengths_rejected", "conn_streams"],
@@ -85,7 +85,7 @@ PROPS = {
     ),
     "C03": dict(
         level="exploration",
-        rule="inputs: (1) deterministic structured corruptions of valid seed messages drawn under every dictionary context - every length field (message, every AVP at every depth) set to each of {0,1,7,8,9,11,12,13,true-1,true+1,true+4,container,container+1,0xFFFFFF} (+19,20,21 for the message length), truncation at every offset, every flag bit of the header and of every AVP flipped, version byte, V flag with Length 8..11; (2) every dictionary type with payload lengths 0..17 and Address with 7 family classes x lengths 0..20; (3) nest bombs on a geometric depth grid; (4) random strings with plausible headers; (5) the 16 MiB extremes in their own child processes; thorough adds coverage-guided native fuzzing seeded with (1). Every input goes to ReadMessage, DecodeHeader, DecodeAVP, DecodeGrouped; every decoded message is rendered (String, PrettyDump), re-serialised, measured, unmarshalled into six struct shapes incl. the state machine's CER/CEA/DWR/DWA, searched and answered. Oracles: recover() around every call, child exit status with the current input logged before each call, TotalAlloc delta <= 64*len+1MiB per decoding call, goroutine stack capped at that bound with debug.SetMaxStack during decoding. distinct_nontrivial counts distinct corruption classes (kind, depth, value index / type, length).",
+        rule="inputs: (1) deterministic structured corruptions of valid seed messages drawn under every dictionary context - every length field (message, every AVP at every depth) set to each of {0,1,7,8,9,11,12,13,true-1,true+1,true+4,container,container+1,0xFFFFFF} (+19,20,21 for the message length), truncation at every offset, every flag bit of the header and of every AVP flipped, version byte, V flag with Length 8..11; (2) every dictionary type with payload lengths 0..17 and Address with 7 family classes x lengths 0..20; (3) nest bombs on a geometric depth grid; (3b) headers that claim 70 000 .. 16 MiB with 0 .. 1 MiB of body actually supplied; (4) random strings with plausible headers; (5) the 16 MiB extremes in their own child processes; thorough adds coverage-guided native fuzzing seeded with (1). Every input goes to ReadMessage, DecodeHeader, DecodeAVP, DecodeGrouped; every decoded message is rendered (String, PrettyDump), re-serialised, measured, unmarshalled into six struct shapes incl. the state machine's CER/CEA/DWR/DWA, searched and answered. Oracles: recover() around every call, child exit status with the current input logged before each call, TotalAlloc delta <= 64*len+1MiB per decoding call, goroutine stack capped at that bound with debug.SetMaxStack during decoding. distinct_nontrivial counts distinct corruption classes (kind, depth, value index / type, length).",
         runs=dict(quick=[plain("TestC03", 8, 900, gomaxprocs=2), plain("TestC03Extremes", 5, 300, gomaxprocs=2), race("TestC03", 4, 900, gomaxprocs=2)],
                   thorough=[plain("TestC03", 16, 3000, gomaxprocs=1), plain("TestC03Extremes", 5, 300, gomaxprocs=2), race("TestC03", 8, 3000, gomaxprocs=2),
                             dict(build="fuzz", test="FuzzC03", iters=3000000, workers=12, timeout=3000)]),
@@ -103,7 +103,7 @@ PROPS = {
     ),
     "C18": dict(
         level="exploration",
-        rule="a hand-written family of 9 struct types against the generated dictionary (one AVP per type name, nested groups, vendor-specific AVPs) and the default dictionary: native Go scalars (string, []byte, int*, uint*, float*, time.Time, net.IP), every datatype type incl. IPv4/IPv6/QoSFilterRule, *T, []T, []*T, [][]byte, AVP / *AVP / []*AVP tagged with grouped and non-grouped AVPs, nested / pointer-to / slice-of / anonymous / embedded structs, omitempty on every kind next to a field without it; values drawn with zero values, empty (non-nil) slices and nil pointers. Each value is marshalled, the AVP list compared with the list built by hand from the dictionary (code, vendor id, M, V, typed value), unmarshalled directly and after Serialize -> ReadMessage into a fresh value and compared (nil == empty slice, Time by second, floats by bits). distinct_nontrivial counts distinct (struct type, number of AVPs produced) classes.",
+        rule="a hand-written family of 9 struct types against the generated dictionary (one AVP per type name, nested groups, vendor-specific AVPs) and the default dictionary: native Go scalars (string, []byte, int*, uint*, float*, time.Time, net.IP), every datatype type incl. IPv4/IPv6/QoSFilterRule, *T, []T, []*T, [][]byte, AVP / *AVP / []*AVP tagged with grouped and non-grouped AVPs, nested / pointer-to / slice-of / anonymous / embedded structs, omitempty on every kind next to a field without it, embedded structs that are not the first field; struct types generated with reflect.StructOf from the AVP names that resolve differently for different applications, used for several applications in both orders; values drawn with zero values, empty (non-nil) slices and nil pointers. Each value is marshalled, the AVP list compared with the list built by hand from the dictionary (code, vendor id, M, V, typed value), unmarshalled directly and after Serialize -> ReadMessage into a fresh value and compared (nil == empty slice, Time by second, floats by bits). distinct_nontrivial counts distinct (struct type, number of AVPs produced) classes.",
         runs=dict(quick=[plain("TestC18", 8), plain("TestC18Apps", 4)], thorough=[plain("TestC18", 16, 3000), plain("TestC18Apps", 8)]),
         floor=dict(quick=30000, thorough=1000000),
         need_events=["roundtrips", "avps_compared", "app_marshals"],
@@ -111,7 +111,7 @@ PROPS = {
     ),
     "C07": dict(
         level="fault_enumeration",
-        rule="(a) W in {1,2,3,8,32} goroutines each write numbered messages (sizes 60..20000 bytes, below and above the 1 KiB serialisation buffer and the 4 KiB write buffer) to one diam.Conn over an in-memory transport that stalls at a pseudo-random byte position inside two thirds of its Write calls; the transport's byte log is framed by the reference codec and checked offline: only whole messages, each successful write exactly once, fillers intact, per-writer order; run on the plain scheduler (GOMAXPROCS 16 and 2) and under the race detector. (b) every script of up to 3 (thorough 4) outcomes (k bytes accepted, temporary error) with k in {0,1,19,20,21,len-1}, ended by success or a permanent error, x retry budgets {temps-1, temps, temps+1}, for WriteToWithRetry on a plain io.Writer, through a diam.Conn with a 44-byte and a 5000-byte message (and through the SCTP backend): bytes received must be exactly the accepted prefixes of the remaining bytes, never a byte range twice, n = bytes accepted, error class as scripted. distinct_nontrivial counts distinct writer counts, interleaving fingerprints (hash of the writer order on the wire mod 4096) and (path, temps, budget, ending) classes.",
+        rule="(a) W in {1,2,3,8,32} goroutines each write numbered messages (sizes 60..20000 bytes, below and above the 1 KiB serialisation buffer and the 4 KiB write buffer) to one diam.Conn over an in-memory transport that stalls at a pseudo-random byte position inside two thirds of its Write calls; the transport's byte log is framed by the reference codec and checked offline: only whole messages, each successful write exactly once, fillers intact, per-writer order; run on the plain scheduler (GOMAXPROCS 16 and 2) and under the race detector; a third of the runs use a transport whose Write is not atomic per call (200-byte chunks, other writers may get in between), and a further suite writes over a real loopback TCP socket. (b) every script of up to 3 (thorough 4) outcomes (k bytes accepted, temporary error) with k in {0,1,19,20,21,len-1}, ended by success or a permanent error, x retry budgets {temps-1, temps, temps+1}, for WriteToWithRetry on a plain io.Writer, through a diam.Conn with a 44-byte and a 5000-byte message (and through the SCTP backend): bytes received must be exactly the accepted prefixes of the remaining bytes, never a byte range twice, n = bytes accepted, error class as scripted. distinct_nontrivial counts distinct writer counts, interleaving fingerprints (hash of the writer order on the wire mod 4096) and (path, temps, budget, ending) classes.",
         runs=dict(quick=[plain("TestC07", 8), plain("TestC07", 2, gomaxprocs=2, env={"VERIF_C07_PART": "a"}), race("TestC07", 4)],
                   thorough=[plain("TestC07", 16, 3000), plain("TestC07", 4, 3000, gomaxprocs=2), race("TestC07", 8, 3000)]),
         floor=dict(quick=500, thorough=10000),
@@ -120,7 +120,7 @@ PROPS = {
     ),
     "C08": dict(
         level="exploration",
-        rule="scenarios inside testing/synctest bubbles (virtual clock, quiescence detection): K in {1,3,5} connections accepted by Server.Serve over a scripted listener or wrapped with diam.NewConn, each receiving 1..12 numbered requests as one burst, one byte at a time, or as 37-byte fragments interleaved across the connections; handlers return at once, sleep (virtual time), or one handler blocks until the scenario releases it. Online monitor per connection: in-flight counter at handler entry must be 0 and the sequence number must be previous+1; with one handler held, every other connection must have all its messages dispatched at quiescence and the held connection none beyond the held one. distinct_nontrivial counts distinct (K, accepted/dialled, arrival pattern, handler kind) classes.",
+        rule="scenarios inside testing/synctest bubbles (virtual clock, quiescence detection): K in {1,3,5} connections accepted by Server.Serve over a scripted listener or wrapped with diam.NewConn, the handler being a plain function or a shared ServeMux with handlers registered by short name for three commands, each connection receiving 1..12 (a quarter of the scenarios: 33..122) numbered requests as one burst, one byte at a time, or as 37-byte fragments interleaved across the connections; handlers return at once, sleep (virtual time), or one handler blocks until the scenario releases it. Online monitor per connection: in-flight counter at handler entry must be 0 and the sequence number must be previous+1; with one handler held, every other connection must have all its messages dispatched at quiescence and the held connection none beyond the held one. distinct_nontrivial counts distinct (K, accepted/dialled, arrival pattern, handler kind, mux, long burst) classes and distinct interleaving fingerprints (hash of the order of handler entries across connections, mod 4096).",
         runs=dict(quick=[race("TestC08", 8)], thorough=[race("TestC08", 16, 3000), plain("TestC08", 8, 3000)]),
         floor=dict(quick=400, thorough=20000),
         need_events=["handler_invocations", "blocked_handler_scenarios"],
@@ -128,7 +128,7 @@ PROPS = {
     ),
     "C09": dict(
         level="exploration",
-        rule="exhaustive decision table on a fresh ServeMux: all 2^9 subsets of nine registration keys around a message's own key (own index; index differing in application, in code, in the R bit; own short name+R/A; the opposite R/A name; another command's name; ALL by name; ALL_CMD_INDEX by index) x 12 messages (request/answer x base commands, application commands, an application id that falls back to the base dictionary, an unknown application id), every handler instrumented with its key, followed by re-registration of every key with a second handler; commands the dictionary does not resolve; a sample of rows through a real connection; and concurrent histories of re-registration and dispatch by 2..4 goroutines recorded at the call boundary and checked with porcupine against the sequential model 'three slots + decision function'. distinct_nontrivial counts distinct selected-handler classes and history shapes.",
+        rule="exhaustive decision table on a fresh ServeMux: all 2^9 subsets of nine registration keys around a message's own key (own index; index differing in application, in code, in the R bit; own short name+R/A; the opposite R/A name; another command's name; ALL by name; ALL_CMD_INDEX by index) x 12 messages (request/answer x base commands, application commands, an application id that falls back to the base dictionary, an unknown application id), every handler instrumented with its key, followed by re-registration of every key with a second handler; (application, code) pairs the dictionary does not resolve - an unknown code and codes only a parent or another application defines - with the foreign names and indexes registered; a sample of rows through a real connection; and concurrent histories of re-registration and dispatch by 2..4 goroutines recorded at the call boundary and checked with porcupine against the sequential model 'three slots + decision function'. distinct_nontrivial counts distinct selected-handler classes and history shapes.",
         runs=dict(quick=[race("TestC09", 8)], thorough=[race("TestC09", 16, 3000)]),
         floor=dict(quick=700, thorough=10000),
         need_events=["dispatches", "histories_linearizable"],
@@ -152,7 +152,7 @@ PROPS = {
     ),
     "C12": dict(
         level="fault_enumeration",
-        rule="sm.Client.NewConn over the in-memory transport against scripted peers under synctest's virtual clock: the product of MaxRetransmits N in {0..3} x RetransmitInterval {1 s, 2.5 s} x the CER index k in {never, 1..N+2} that gets the reply x reply kind {success CEA sharing an advertised application, failing result code, no Result-Code, no Origin-Host, success without application, success with an application unknown to the dictionary, disconnect} x reply delay {0, interval/2, interval-1ms}; every successful script is continued with every sequence of 0..3 extra CEAs over {duplicate success, late failure, malformed} and then an application answer; client configurations rotate over 0..3 advertised application kinds, 0/1/2 configured addresses and IPv4/IPv6 local endpoints. Oracle: CER count <= N+1, byte-identical, Write entries >= interval apart (virtual time), identity / addresses / applications as configured; dial outcome and error class as scripted; transport closed iff failure; after success close count 0 and the answer dispatched exactly once; no reader panic in the log; no goroutine left at the end of the bubble. distinct_nontrivial counts distinct (N, k, reply kind, number of extra CEAs) classes.",
+        rule="sm.Client.NewConn over the in-memory transport against scripted peers under synctest's virtual clock: the product of MaxRetransmits N in {0..3} x RetransmitInterval {1 s, 2.5 s} x the CER index k in {never, 1..N+2} that gets the reply x reply kind {success CEA sharing an advertised application, failing result code, no Result-Code, no Origin-Host, success without application, success with an application unknown to the dictionary (plain and inside a vendor-specific group after the Vendor-Id), disconnect} x reply delay {0, interval/2, interval-1ms}; transports with back-pressure where the Write of a CER returns 0.5 / 1.5 / 3 intervals after the peer saw the bytes and the success CEA arrives meanwhile or shortly after; every successful script is continued with every sequence of 0..3 extra CEAs over {duplicate success, late failure, malformed} and then an application answer; client configurations rotate over 0..3 advertised application kinds, 0/1/2 configured addresses and IPv4/IPv6 local endpoints. Oracle: CER count <= N+1, byte-identical, Write entries >= interval apart (virtual time), identity / addresses / applications as configured; dial outcome and error class as scripted; transport closed iff failure; after success close count 0 and the answer dispatched exactly once; no reader panic in the log; no goroutine left at the end of the bubble. distinct_nontrivial counts distinct (N, k, reply kind, number of extra CEAs) classes.",
         runs=dict(quick=[race("TestC12", 12)], thorough=[race("TestC12", 16, 6000), plain("TestC12", 8, 3000)]),
         floor=dict(quick=2000, thorough=4000),
         need_events=["successful_handshakes", "failed_handshakes", "extra_ceas"],
@@ -168,7 +168,7 @@ PROPS = {
     ),
     "C14": dict(
         level="fault_enumeration",
-        rule="every ordering pre + termination + post with pre over {F deliver a fragment (fragments cut three numbered messages inside message boundaries), h arm CloseNotify in the next handler invocation, o CloseNotify from another goroutine while the reader is blocked} with at most 4 F and 3 notifier requests in total, termination in {peer EOF, transport read error, undecodable message, undecodable message with trailing data in the same segment, local Close}, post = CloseNotify requested after the termination (0..3 times): each ordering is executed inside a synctest bubble with quiescence between events, so the ordering is the schedule; the same orderings are also fired without quiescence points (racing) under the race detector; plus sm.Client with the watchdog enabled (the watchdog goroutine is itself a CloseNotify user) x 5 terminations x 0..2 completed watchdog exchanges. Oracle: no obtained channel closed at any quiescent point before the termination, every obtained channel closed at quiescence after it, no 'panic serving' in the captured log, handler log = the messages completely delivered before the termination in order, transport closed, and no goroutine with library frames left (goroutine dump at quiescence, after advancing virtual time past the watchdog interval). distinct_nontrivial counts distinct (termination, #F, #h, #o, #t) classes.",
+        rule="every ordering pre + termination + post with pre over {F deliver a fragment (fragments cut three numbered messages inside message boundaries), h arm CloseNotify in the next handler invocation, o CloseNotify from another goroutine while the reader is blocked} with at most 4 F and 3 notifier requests in total, termination in {peer EOF, transport read error, undecodable message, undecodable message with more data in flight behind it, local Close, and EOF / read error returned by the same Read that returns the last bytes of a message}, post = CloseNotify requested after the termination (0..3 times): each ordering is executed inside a synctest bubble with quiescence between events, so the ordering is the schedule; the same orderings are also fired without quiescence points (racing) under the race detector; plus a real-scheduler stress suite (no bubble) in which four goroutines request CloseNotify with a swept delay exactly while the connection terminates (100 k rounds per quick run; a round that does not finish is decided by the goroutine dump); plus sm.Client with the watchdog enabled (the watchdog goroutine is itself a CloseNotify user) x 5 terminations x 0..2 completed watchdog exchanges. Oracle: no obtained channel closed at any quiescent point before the termination, every obtained channel closed at quiescence after it, no 'panic serving' in the captured log, handler log = the messages completely delivered before the termination in order, transport closed, and no goroutine with library frames left (goroutine dump at quiescence, after advancing virtual time past the watchdog interval). distinct_nontrivial counts distinct (termination, #F, #h, #o, #t) classes.",
         runs=dict(quick=[race("TestC14", 12)], thorough=[race("TestC14", 16, 6000), plain("TestC14", 8, 3000)]),
         floor=dict(quick=4000, thorough=50000),
         need_events=["orderings", "channels_checked", "client_watchdog_scenarios"],
@@ -176,7 +176,7 @@ PROPS = {
     ),
     "C15": dict(
         level="fault_enumeration",
-        rule="Server.Serve over a scripted in-memory listener inside synctest bubbles: K in {2,3} connections x 3 numbered requests with one fault at every (connection, position 0..3) x {handler panic, undecodable message, disconnect on a message boundary, disconnect inside a message}; 1..4 temporary Accept errors in a row at every position of the accept sequence, alone and combined with a fault; then random scenarios with K up to 5, up to two faults and accept errors. A connection is opened after the faults. Oracle at quiescence (virtual time absorbs the accept back-off): every request on a healthy connection and every request before the fault on a faulty one is answered (matched by hop-by-hop id), faulty transports are closed and healthy ones are not, one error report is readable iff undecodable input occurred, the post-fault connection is accepted and served, Serve has not returned, 'panic serving' is logged iff a handler panic was scripted. distinct_nontrivial counts distinct (K, fault kind, accept errors) classes.",
+        rule="Server.Serve over a scripted in-memory listener inside synctest bubbles: K in {2,3} connections x 3 numbered requests with one fault at every (connection, position 0..3) x {handler panic, undecodable message, disconnect on a message boundary, disconnect inside a message}; 1..4 temporary Accept errors in a row at every position of the accept sequence, alone and combined with a fault; then random scenarios with K up to 5, up to two faults and accept errors. After the faults the application registers one more handler on the shared mux and a new connection is opened. Oracle at quiescence (virtual time absorbs the accept back-off): every request on a healthy connection and every request before the fault on a faulty one is answered (matched by hop-by-hop id), faulty transports are closed and healthy ones are not, one error report is readable iff undecodable input occurred, the post-fault connection is accepted and served, Serve has not returned, 'panic serving' is logged iff a handler panic was scripted. distinct_nontrivial counts distinct (K, fault kind, accept errors) classes.",
         runs=dict(quick=[race("TestC15", 8)], thorough=[race("TestC15", 16, 6000)]),
         floor=dict(quick=600, thorough=10000),
         need_events=["scenarios", "faults_injected", "answers_matched"],
@@ -184,7 +184,7 @@ PROPS = {
     ),
     "C19": dict(
         level="exploration",
-        rule="through the verif hook: an in-memory SCTP association (per-read stream tag, partial delivery) consumed exactly as in production by diam.NewConn(VerifNewSCTPConn(backend)) -> conn.serve -> ReadMessage. Small cases (1..3 streams out of 0..15 and 65535, 1..2 numbered messages each, up to 8 chunks in total, cuts inside headers, on boundaries and spanning messages): every interleaving of the per-stream chunk sequences, each delivered both chunk by chunk with quiescence in between and all at once; large cases (up to 16 streams, 6 messages of 20..5020 bytes per stream): random interleavings. Oracle: per stream the handler's log equals the sent ids in order, exactly once, with intact bytes and the sending stream as MessageStream(); every request gets exactly one SCTPWrite carrying one whole answer on the request's stream with the Diameter PPID; at every quiescent point VerifCheckStreams (heap order by buffered length, idx consistency, map/heap agreement, under the demultiplexer's own mutex) and conservation (delivered - handled - buffered >= 0 per stream, > 0 for at most one stream, all zero at the end); CloseNotify's error handler installed concurrently with reads and its channel closed after EOF. distinct_nontrivial counts distinct (size class, number of streams, number of chunks) classes.",
+        rule="through the verif hook: an in-memory SCTP association (per-read stream tag, partial delivery) consumed exactly as in production by diam.NewConn(VerifNewSCTPConn(backend)) -> conn.serve -> ReadMessage. Small cases (1..3 streams out of 0..15 and 65535, 1..2 numbered messages each, up to 8 chunks in total, cuts inside headers, on boundaries and spanning messages): every interleaving of the per-stream chunk sequences, each delivered both chunk by chunk with quiescence in between and all at once; large cases (up to 16 streams, 6 messages of 20..5020 bytes per stream): random interleavings. Oracle: per stream the handler's log equals the sent ids in order, exactly once, with intact bytes and the sending stream as MessageStream(); every request gets exactly one SCTPWrite carrying one whole answer on the request's stream with the Diameter PPID; at every quiescent point VerifCheckStreams (heap order by buffered length, idx consistency, map/heap agreement, under the demultiplexer's own mutex) and conservation (delivered - handled - buffered >= 0 per stream, > 0 for at most one stream, all zero at the end); CloseNotify's error handler installed concurrently with reads and its channel closed after EOF; a third of the runs answer later, in reverse order, from four goroutines at once. distinct_nontrivial counts distinct (size class, number of streams, number of chunks) classes and distinct delivery-order fingerprints (hash of the order in which the handler saw (stream, id), mod 4096).",
         runs=dict(quick=[race("TestC19", 12)], thorough=[race("TestC19", 16, 6000)]),
         floor=dict(quick=500, thorough=20000),
         need_events=["merges", "exhaustive_small_cases", "quiescent_points", "replies_checked"],
